@@ -44,6 +44,12 @@ def schemaSexp (s : Schema) : Sexp :=
     .list [.atom "roots", .list (s.queryType.toList.map Sexp.mkNat), .list (s.mutationType.toList.map Sexp.mkNat),
            .list (s.subscriptionType.toList.map Sexp.mkNat)]]
 
+def dSexp : Serde.D Json → Sexp
+  | .ok j => .list [.atom "ok", j.toSexp]
+  | .error (.mismatch w) => .list [.atom "err", .str w]
+  | .error (.unmodelled w) => .list [.atom "unmodelled", .str w]
+
+
 def bad (what : String) : Sexp := .list [.atom "bad-request", .str what]
 
 def handle (req : Sexp) : Sexp :=
@@ -67,6 +73,14 @@ def handle (req : Sexp) : Sexp :=
       .list [.atom "c06", .atom kind, Sexp.mkBool (Valid.validDoc s true d), Sexp.mkBool (Valid.validDoc s false d)]
     | some (.error e), some _ => .list [.atom "schema-failed", errSexp e]
     | _, _ => bad "c06"
+  | .list [.atom "id-helper", .str h, ty, j] =>
+    -- the three ID helpers of serde_with.rs at a given target type
+    match RTy.ofSexp ty, Json.ofSexp j with
+    | some ty, some j =>
+      let ser (v : Val) : Serde.D Json := Serde.serTyWith (fun _ v => match Serde.serPrim v with
+        | some j => pure j | none => Serde.unmodelled "non-leaf") ty v
+      dSexp (do ser (← Serde.deHelper h ty j))
+    | _, _ => bad "id-helper"
   | .list [.atom "enum-wf", item] =>
     match Item.ofSexp item with
     | some (.gqlEnum _ _ _ vs ser de) => .list [.atom "ok", Sexp.mkBool (EnumSpec.tablesWf vs ser de)]
@@ -80,11 +94,6 @@ def handle (req : Sexp) : Sexp :=
 
 /-- loaded module environments for the wire-level requests -/
 abbrev St := List (Nat × Env)
-
-def dSexp : Serde.D Json → Sexp
-  | .ok j => .list [.atom "ok", j.toSexp]
-  | .error (.mismatch w) => .list [.atom "err", .str w]
-  | .error (.unmodelled w) => .list [.atom "unmodelled", .str w]
 
 def handleS (st : St) (req : Sexp) : St × Sexp :=
   match req with
